@@ -1,0 +1,39 @@
+//go:build verif
+
+package verifhook
+
+import (
+	"encoding/json"
+	"fmt"
+	"runtime/debug"
+
+	"github.com/basecomplextech/spec/internal/lang/parser"
+)
+
+// PanicError is returned by ParseJSON when the parser panicked.
+type PanicError struct {
+	Value any
+	Stack []byte
+}
+
+func (e *PanicError) Error() string { return fmt.Sprintf("parser panic: %v", e.Value) }
+
+// ParseJSON parses a schema source with the real parser and returns the resulting
+// syntax tree marshalled by encoding/json (no custom dump code), or the parser's error.
+// nilTree reports that the parser returned neither a tree nor an error.
+func ParseJSON(src string) (out []byte, nilTree bool, err error) {
+	defer func() {
+		if e := recover(); e != nil {
+			out, err = nil, &PanicError{Value: e, Stack: debug.Stack()}
+		}
+	}()
+	file, err := parser.New().Parse(src)
+	if err != nil {
+		return nil, false, err
+	}
+	if file == nil {
+		return nil, true, nil
+	}
+	out, err = json.Marshal(file)
+	return out, false, err
+}
